@@ -33,6 +33,7 @@ func c17model(c *Ctx) {
 	}
 	m.it.maxDepth = 48
 	var fmtCalls []c17fmtCall
+	intTexts := 0 // ordinates written as the decimal text of an exact integer conversion
 	refl := &shpModel{c: c, m: m, it: m.it, problems: map[string][]string{}}
 	m.it.stub = func(f *types.Func, recv oval, args []oval) ([]oval, bool) {
 		switch {
@@ -55,6 +56,35 @@ func c17model(c *Ctx) {
 			}
 			arr := []oval{oTokF{fv.r}}
 			return []oval{oSlice{typ: types.Typ[types.String], arr: &arr, lo: 0, hi: 1, capEnd: 1}}, true
+		case m.it.floatClass != nil && f.Pkg() != nil && f.Pkg().Path() == "math":
+			if out, ok := m.it.floatClass.mathCall(f.Name(), args); ok {
+				return out, true
+			}
+		case m.it.floatClass != nil && (isFuncIn(f, "strconv", "AppendInt") || isFuncIn(f, "strconv", "AppendUint")) && len(args) == 3:
+			// the decimal text of an integer converted from an ordinate
+			if b, ok := args[2].(oInt); ok && b == 10 {
+				if tok, ok := m.it.floatClass.intText(args[1]); ok {
+					dst, ok := args[0].(oSlice)
+					if _, isNil := args[0].(oNil); isNil {
+						dst, ok = oSlice{}, true
+					}
+					if ok {
+						intTexts++
+						return []oval{appendVals(dst, []oval{tok})}, true
+					}
+				}
+			}
+		case m.it.floatClass != nil && (isFuncIn(f, "strconv", "FormatInt") || isFuncIn(f, "strconv", "Itoa") || isFuncIn(f, "strconv", "FormatUint")) && len(args) >= 1:
+			if len(args) == 2 {
+				if b, ok := args[1].(oInt); !ok || b != 10 {
+					break
+				}
+			}
+			if tok, ok := m.it.floatClass.intText(args[0]); ok {
+				intTexts++
+				arr := []oval{tok}
+				return []oval{oSlice{typ: types.Typ[types.String], arr: &arr, lo: 0, hi: 1, capEnd: 1}}, true
+			}
 		case f.Pkg() != nil && f.Pkg().Path() == "reflect":
 			// reflection described by go/types (a dispatch table keyed by reflect.Type, say)
 			return refl.reflectStub(f.FullName(), f, recv, args)
@@ -131,27 +161,30 @@ func c17model(c *Ctx) {
 		}
 		gen(nil)
 		verdict, isUnk := "", false
-		for _, counts := range combos {
+		runOne := func(counts []int, class *floatClass) (string, bool) {
 			g := build(tn, counts)
 			c.Evals(1)
+			m.it.floatClass = class
 			res, why := m.it.Call(enc, nil, []oval{m.it.ifaceOf(g)}, 0)
+			m.it.floatClass = nil
+			where := ""
+			if class != nil {
+				where = " (ordinates: " + class.name + ")"
+			}
 			if why != "" {
-				verdict, isUnk = fmt.Sprintf("member counts %v: not interpretable: %s", counts, why), true
-				break
+				return fmt.Sprintf("member counts %v%s: not interpretable: %s", counts, where, why), !strings.HasPrefix(why, "panic:")
 			}
 			if eq, ok := oEqual(res[1], oNil{}); !ok {
-				verdict, isUnk = fmt.Sprintf("member counts %v: the error result is %s", counts, showVal(res[1])), true
-				break
+				return fmt.Sprintf("member counts %v%s: the error result is %s", counts, where, showVal(res[1])), true
 			} else if !eq {
-				verdict = fmt.Sprintf("member counts %v: Encode returns an error for a supported type", counts)
-				break
+				return fmt.Sprintf("member counts %v%s: Encode returns an error for a supported type", counts, where), false
 			}
 			txt, ok := res[0].(oSlice)
 			if !ok {
-				verdict, isUnk = fmt.Sprintf("member counts %v: result is %s", counts, showVal(res[0])), true
-				break
+				return fmt.Sprintf("member counts %v%s: result is %s", counts, where, showVal(res[0])), true
 			}
 			var toks []wtok
+			bad, unk := "", ""
 			for i := 0; i < txt.length(); i++ {
 				switch e := txt.at(i).(type) {
 				case oInt:
@@ -162,21 +195,65 @@ func c17model(c *Ctx) {
 						nm = fmt.Sprintf("?%d", e.r)
 					}
 					toks = append(toks, wtok{num: nm})
+				case oTokBad:
+					if bad == "" {
+						bad = fmt.Sprintf("member counts %v%s: the ordinate %s is written as %s", counts, where, names[e.r], e.why)
+					}
 				default:
-					verdict, isUnk = fmt.Sprintf("member counts %v: the text contains %s", counts, showVal(e)), true
+					if unk == "" {
+						unk = fmt.Sprintf("member counts %v%s: the text contains %s", counts, where, showVal(e))
+					}
 				}
 			}
-			if verdict != "" {
-				break
+			if unk != "" {
+				return unk, true
+			}
+			if bad != "" {
+				return bad, false
 			}
 			if msg := parseWKT(tn, toks, counts); msg != "" {
-				verdict = fmt.Sprintf("with member counts %v the encoder emits `%s`, which is not well-formed OGC WKT for the geometry: %s", counts, renderToks(toks), msg)
+				return fmt.Sprintf("with member counts %v%s the encoder emits `%s`, which is not well-formed OGC WKT for the geometry: %s", counts, where, renderToks(toks), msg), false
+			}
+			return "", false
+		}
+		// first with ordinates known by rank only; an encoder that branches on an ordinate's value
+		// cannot be followed that way, and is then followed region by region instead
+		plainUnk := ""
+		for _, counts := range combos {
+			v, unk := runOne(counts, nil)
+			if v != "" && unk {
+				plainUnk = v
+				break
+			}
+			if v != "" {
+				verdict = v
 				break
 			}
 		}
+		// every ordinate in one region of the float64 line: all combinations when the runs above
+		// could not be followed, the largest one otherwise (an encoder that does not look at the
+		// values behaves there as above)
+		if verdict == "" {
+			perRegion := combos[len(combos)-1:]
+			if plainUnk != "" {
+				perRegion = combos
+			}
+		regions:
+			for i := range c17floatClasses {
+				for _, counts := range perRegion {
+					if v, unk := runOne(counts, &c17floatClasses[i]); v != "" {
+						verdict, isUnk = v, unk
+						break regions
+					}
+				}
+			}
+		}
+		if verdict == "" && plainUnk != "" {
+			c.Note("C17.R1 %s: without a region of values the encoder is not interpretable (%s); decided in each of the %d regions", tn, plainUnk, len(c17floatClasses))
+		}
 		switch {
 		case verdict == "":
-			c.OK("C17.R1", cons, pos, "%d count combinations (1..3 per level) all parse, member counts right at every level, coordinates complete and in order", len(combos))
+			c.OK("C17.R1", cons, pos, "%d count combinations (1..3 per level) all parse, member counts right at every level, coordinates complete and in order; and so with every ordinate in each of %d regions of the float64 line (fractions, whole numbers, 17-digit whole numbers, beyond int64, tiny, both zeros, both signs)", len(combos), len(c17floatClasses))
 		case isUnk:
 			c.Unk("C17.R1", cons, pos, "%s", verdict)
 		default:
@@ -245,6 +322,8 @@ func c17model(c *Ctx) {
 	switch {
 	case bad != "":
 		c.Bad("C17.R2", "encoding/wkt#float-format", pos, "%s", bad)
+	case len(fmtCalls) == 0 && intTexts > 0:
+		c.Unk("C17.R2", "encoding/wkt#float-format", pos, "ordinates are written only as integers: no float formatting was reached in any region")
 	case len(fmtCalls) == 0:
 		c.Unk("C17.R2", "encoding/wkt#float-format", pos, "no strconv float formatting was reached: coordinates are written some other way")
 	default:
